@@ -234,11 +234,11 @@ def check_shape(shape, tmp, fails, tag):
                     g = np.cross(b - a, cc - b)
                     if np.linalg.norm(np.array(nrm) - g) > 1e-9 * max(1.0, np.linalg.norm(g)):
                         raise ValueError("facet normal is not (t1-t0)x(t2-t1)")
-                    vol += np.dot(a, np.cross(b, cc)) / 6
+                    vol += np.dot(a - c, np.cross(b - c, cc - c)) / 6      # about the vertex mean: no cancellation far from the origin
                     for p in t:
                         if min(np.abs(V - np.array(p)).max(axis=1)) > 0:
                             raise ValueError("triangle corner is not a vertex of the polyhedron (bit-exact)")
-                if abs(vol - float(shape.volume)) > 1e-9 * abs(float(shape.volume)):
+                if abs(vol - float(shape.volume)) > 1e-7 * abs(float(shape.volume)):
                     raise ValueError(f"triangles do not bound the solid (signed volume {vol} vs {float(shape.volume)})")
             else:
                 if ft == "HTML":
@@ -298,6 +298,35 @@ def run(chk):
                     fails.append((f"polyhedron:{name}/x{scale:g}", {"format": "STL", "problem": f"construction failed: {type(e).__name__}: {e}"[:200]}))
         for tag, shape in shapes:
             n_eval += check_shape(shape, tmp, fails, tag)
+        # the files describe the shape as it is *now*: export - change the shape through its public mutators - export again
+        # (faces given with mixed winding and sort_faces, a triangulated surface and merge_faces, resize, move, reorient)
+        import random as _random
+        rnd = _random.Random(chk.seed)
+        for name in ("prism6", "irregular_prism5", "frustum"):
+            if name not in named:
+                continue
+            fc = [list(f) for f in oracle.hull_facets(named[name])]
+            mixed = [f[::-1] if rnd.random() < 0.5 else f[1:] + f[:1] for f in fc]
+            if all(m != f[::-1] for m, f in zip(mixed, fc)):
+                mixed[0] = fc[0][::-1]
+            pts = [[c_ * 2.5e-3 + o for c_, o in zip(p, (0.4, -0.2, 0.1))] for p in named[name]]
+            tri = [[f[0], f[k], f[k + 1]] for f in fc for k in range(1, len(f) - 1)]
+            histories = [("sort_faces", lambda: cox.shapes.Polyhedron(pts, [list(f) for f in mixed], faces_are_convex=True), lambda s: s.sort_faces()),
+                         ("merge_faces", lambda: cox.shapes.Polyhedron(pts, [list(t) for t in tri]), lambda s: s.merge_faces()),
+                         ("volume*=8", lambda: cox.shapes.Polyhedron(pts, [list(f) for f in fc]), lambda s: setattr(s, "volume", 8 * s.volume)),
+                         ("centroid+=(1,2,3)", lambda: cox.shapes.Polyhedron(pts, [list(f) for f in fc]),
+                          lambda s: setattr(s, "centroid", np.asarray(s.centroid, float) + np.array([1.0, 2.0, 3.0]))),
+                         ("diagonalize_inertia", lambda: cox.shapes.ConvexPolyhedron(pts), lambda s: s.diagonalize_inertia())]
+            for hname, build, mutate in histories:
+                try:
+                    shape = build()
+                    scratch = []
+                    check_shape(shape, tmp, scratch, f"history:{name}/before_{hname}")     # first export (its result is not judged for sort_faces input)
+                    mutate(shape)
+                except Exception as e:  # noqa: BLE001
+                    fails.append((f"history:{name}/{hname}", {"format": "OBJ", "problem": f"{type(e).__name__}: {e}"[:200]}))
+                    continue
+                n_eval += check_shape(shape, tmp, fails, f"history:{name}/exported_then_{hname}_then_exported")
     seen = set()
     for name, info in fails:
         key = name.split(":")[0] + ":" + info["problem"][:40]
@@ -313,6 +342,6 @@ def run(chk):
     chk.bounded.append({"clause": "each written file is parsed by an independent minimal parser: vertices bit-exact, same face cycles "
                                   "(STL: outward fan triangles bounding the same solid), declared counts equal the data",
                         "bound": "6 (quick) / all named convex solids x {unit, 1e-6, 1e6 scale, offset} as ConvexPolyhedron; 4 (quick) / 8 voxel "
-                                 "solids and 2 extruded non-convex polygons as Polyhedron; 7 formats each",
+                                 "solids and 2 extruded non-convex polygons as Polyhedron; 7 formats each; 3 solids exported, changed through sort_faces / merge_faces / volume / centroid / diagonalize_inertia and exported again",
                         "evaluations": n_eval, "distinct_nontrivial": len(shapes), "rule": "distinct = shapes; evaluations = files",
                         "samples": [{"shape": "voxel:U7", "format": "VTK"}], "failures": len(fails), "exhaustive": False})
